@@ -136,6 +136,51 @@ func verifC19Case(line string) string {
 			return "unexpected-success"
 		}
 		return verifC19Err(err)
+	case f[0] == "fednew" && len(f) == 3:
+		// the wiring done by federation.New: the rpc.Conn it creates for a remote cluster must
+		// use the salting token provider. The local backend is the real localdb/railsproxy
+		// pointed at a closed port, so every local lookup fails without an HTTP status.
+		remote := verifc19.Unhex(f[1])
+		tokens, _ := verifC19ParseToks(f[2])
+		rec := &verifC19Recorder{}
+		srv := httptest.NewServer(rec)
+		defer srv.Close()
+		u, _ := url.Parse(srv.URL)
+		cluster := &arvados.Cluster{
+			ClusterID: "zhome",
+			RemoteClusters: map[string]arvados.RemoteCluster{
+				remote:  {Scheme: "http", Host: u.Host, Proxy: true},
+				"zhome": {Scheme: "http", Host: u.Host, Proxy: true},
+				"znopr": {Scheme: "http", Host: u.Host, Proxy: false},
+			},
+		}
+		arvadostest.SetServiceURL(&cluster.Services.RailsAPI, "http://localhost:9")
+		fed := New(cluster)
+		if _, ok := fed.remotes["zhome"]; ok {
+			return "own-cluster-has-remote-conn"
+		}
+		if _, ok := fed.remotes["znopr"]; ok {
+			return "non-proxy-remote-has-conn"
+		}
+		conn, ok := fed.remotes[remote].(*rpc.Conn)
+		if !ok {
+			return "no-rpc-conn-for-remote"
+		}
+		ctx := auth.NewContext(context.Background(), &auth.Credentials{Tokens: tokens})
+		_, err := conn.CollectionGet(ctx, arvados.GetOptions{UUID: "zrmte-4zz18-000000000000000"})
+		if err != nil {
+			if len(rec.reqs) != 0 {
+				return "error-after-request " + verifc19.Hex(err.Error())
+			}
+			if err == auth.ErrSalted {
+				return "err salted"
+			}
+			return "err backend"
+		}
+		if len(rec.reqs) != 1 {
+			return "unexpected-request-count"
+		}
+		return "ok " + rec.reqs[0]
 	case (f[0] == "prov" || f[0] == "provhttp") && len(f) == 3:
 		remote := verifc19.Unhex(f[1])
 		tokens, table := verifC19ParseToks(f[2])
